@@ -80,6 +80,8 @@ def route_instances():
             ('legacy', '/dash/hand_made.mpd'), ('legacy', '/dash/bbb/enc.mpd'), ('legacy', '/dash/synempty/manifest_vod.mpd'),
             ('html', '/stream/1/1'), ('html', '/stream/1/1/segments'), ('html', '/stream/1/1/segment/2'),
             ('html', '/stream/1/1/segment/99')]
+    # every segment index around the ends of the table (the file has an init segment and ten media segments)
+    out += [('html', f'/stream/1/1/segment/{i}') for i in (0, 1, 9, 10, 11, 12, 13)]
     return out
 
 
